@@ -287,6 +287,19 @@ def _run(fixed, mobile0, mobile, restr, restr_as):
         except Exception:  # noqa: BLE001
             vbuf = None
     out["value_via_reused_buffer"] = vbuf
+    # ... and the same coordinates in another MEMORY layout (Fortran order / a transposed view: what
+    # `np.array([xs, ys, zs]).T` gives): the measure is a function of the coordinates, not of their strides
+    # (seed C08-9: restrained atoms gathered from `mol2.ravel(order='K')` with C-order offsets)
+    vf = None
+    if len(mobile) == len(mobile0) and len(mobile) > 0:
+        try:
+            Mf = np.asfortranarray(M)
+            Mf.flags.writeable = False
+            with np.errstate(all="ignore"):
+                vf = float(calc(Mf))
+        except Exception:  # noqa: BLE001
+            vf = None
+    out["value_via_fortran_order"] = vf
     try:
         with np.errstate(all="ignore"):
             v = calc(M)
@@ -420,6 +433,9 @@ def evaluate(ctx, case):
         ctx.oracle_fail("chi2:inputs-modified", case, detail)
     vb = res.get("value_via_reused_buffer")
     ctx.oracle_ok(1)
+    vfo = res.get("value_via_fortran_order")
+    if vfo is not None and not _rel_ok(vfo, v):
+        ctx.oracle_fail(f"chi2:value-depends-on-memory-layout:{rc}", case, dict(detail, fortran_order=vfo))
     if vb is not None and fbits(vb) != fbits(v):
         ctx.oracle_fail(f"chi2:value-depends-on-array-identity-or-history:{rc}", case,
                         dict(detail, via_reused_buffer=vb))
